@@ -257,6 +257,8 @@ def run_check(pid, tier, seed, replay=None):
         check_props_file(ctx, pid)
     model_ok = not any(f.startswith(("Model/", "Base/", "Gen/")) for f, _ in bad)
     ctx.extra["model_ok"] = model_ok
+    if tier == "thorough" and rc == 0:
+        coqchk(ctx, pid)
     # correspondence + oracles
     try:
         if replay:
@@ -274,6 +276,29 @@ def run_check(pid, tier, seed, replay=None):
             traceback.print_exc()
             ctx.notes.append("search crashed: %r" % (e,))
     return finish(ctx, mod)
+
+
+def coqchk(ctx, pid):
+    """thorough tier: re-check the compiled property file and everything it depends on with the independent checker"""
+    cmd = ["timeout", "3000", "coqchk", "-silent", "-o", "-Q", C.COQ, "XV", "XV.Props.%s" % pid]
+    p = subprocess.run(cmd, capture_output=True, text=True, cwd=C.COQ)
+    out = p.stdout + p.stderr
+    m = re.search(r"\* Axioms:(.*?)\n\s*\n\* Constants/Inductives relying on type-in-type:(.*?)\n\s*\n\* Constants/Inductives relying on unsafe \(co\)fixpoints:(.*?)\n\s*\n\* Inductives whose positivity is assumed:(.*?)\n", out, re.S)
+    ok = p.returncode == 0 and m is not None
+    detail = out[-600:]
+    if m:
+        axioms = [a.strip() for a in m.group(1).split("\n") if a.strip() and a.strip() != "<none>"]
+        unsafe = [x.strip() for g in (2, 3, 4) for x in m.group(g).split("\n") if x.strip() and x.strip() != "<none>"]
+        # coqchk lists the axioms of every LOADED library file (not only those a theorem depends on): the real-number
+        # axioms, excluded middle (Coq.Logic.Classical_Prop.classic, loaded by Coq.Reals) and the primitive
+        # float / 63-bit integer operations with their specification axioms
+        lib_ok = ("Coq.Floats.", "Coq.Numbers.Cyclic.Int63.", "Coq.Logic.Classical_Prop.classic")
+        bad_ax = [a for a in axioms if not (any(a.endswith(k) for k in ALLOWED_AXIOMS) or a.startswith(lib_ok))]
+        ctx.extra["coqchk_axioms"] = [a for a in axioms if not a.startswith(lib_ok[:2])]
+        ctx.extra["coqchk_primitive_axioms"] = len([a for a in axioms if a.startswith(lib_ok[:2])])
+        ok = ok and not unsafe and not bad_ax
+        detail = "axioms: %r; unsafe: %r" % (axioms, unsafe)
+    ctx.oblige("coqchk: Props/%s.vo and its dependencies re-checked by the independent checker" % pid, "theorem", ok, detail)
 
 
 def extract_error(out, f):
